@@ -288,9 +288,6 @@ func isExportedName(s string) bool { return s != "" && s[0] >= 'A' && s[0] <= 'Z
 
 // comparePair checks the four predicates on (a, b) against reflect.
 func comparePair(xa xr.Type, ra r.Type, xb xr.Type, rb r.Type, label bool) (errs []string) {
-	if label {
-		rec.Eval(1) // every ordered pair compared is a case of its own
-	}
 	errf := func(format string, args ...interface{}) {
 		if len(errs) < 6 {
 			errs = append(errs, fmt.Sprintf("pair (%v, %v): ", ra, rb)+fmt.Sprintf(format, args...))
@@ -305,6 +302,13 @@ func comparePair(xa xr.Type, ra r.Type, xb xr.Type, rb r.Type, label bool) (errs
 		lab(label, "excluded:unsafe-pointer-pair")
 		return nil
 	}
+	if label {
+		rec.Eval(1) // every ordered pair compared is a case of its own
+		if cl := arrayLenClass(ra, rb); cl != "" {
+			rec.Label("pair:array-len-" + cl)
+			rec.NT("pair|" + ra.String() + "|" + rb.String())
+		}
+	}
 	p := vlib.Try(func() {
 		identical := ra == rb
 		if got := xa.IdenticalTo(xb); got != identical {
@@ -317,7 +321,7 @@ func comparePair(xa xr.Type, ra r.Type, xb xr.Type, rb r.Type, label bool) (errs
 			if want && !identical {
 				lab(label, "pair-true:"+name)
 				if label {
-					rec.NT("pair|" + name + "|" + ra.String() + "|" + rb.String())
+					rec.NT("pair|" + ra.String() + "|" + rb.String()) // one key per ordered pair, whatever the predicate
 				}
 			} else {
 				lab(label, fmt.Sprintf("pair-%v:%s", want, name))
@@ -511,4 +515,88 @@ func reachesEmulatedRecursive(rt r.Type) bool {
 		return false
 	}
 	return walk(rt)
+}
+
+// arrayLenClass: "" unless ra and rb have the same structure and differ only in array
+// lengths; then the class of the first differing lengths (left vs right): "0-vs-n",
+// "n-vs-0" or "m-vs-n". Such pairs are the boundary cases of type identity.
+func arrayLenClass(ra, rb r.Type) string {
+	if ra == rb {
+		return ""
+	}
+	la, lb, ok := lenDiff(ra, rb, 0)
+	if !ok || la == lb {
+		return ""
+	}
+	switch {
+	case la == 0:
+		return "0-vs-n"
+	case lb == 0:
+		return "n-vs-0"
+	}
+	return "m-vs-n"
+}
+
+// lenDiff walks two reflect types in lockstep; ok = same structure up to array lengths;
+// la, lb = the first pair of differing lengths (equal when none differs).
+func lenDiff(a, b r.Type, depth int) (la, lb int, ok bool) {
+	if a == b {
+		return 0, 0, true
+	}
+	if depth > 6 || a.Kind() != b.Kind() || a.Name() != "" || b.Name() != "" {
+		return 0, 0, false
+	}
+	merge := func(xs, ys []r.Type) (int, int, bool) {
+		if len(xs) != len(ys) {
+			return 0, 0, false
+		}
+		fa, fb := 0, 0
+		for i := range xs {
+			x, y, ok := lenDiff(xs[i], ys[i], depth+1)
+			if !ok {
+				return 0, 0, false
+			}
+			if fa == fb {
+				fa, fb = x, y
+			}
+		}
+		return fa, fb, true
+	}
+	switch a.Kind() {
+	case r.Array:
+		x, y, ok := lenDiff(a.Elem(), b.Elem(), depth+1)
+		if !ok {
+			return 0, 0, false
+		}
+		if a.Len() != b.Len() {
+			return a.Len(), b.Len(), true
+		}
+		return x, y, true
+	case r.Chan:
+		if a.ChanDir() != b.ChanDir() {
+			return 0, 0, false
+		}
+		return lenDiff(a.Elem(), b.Elem(), depth+1)
+	case r.Ptr, r.Slice:
+		return lenDiff(a.Elem(), b.Elem(), depth+1)
+	case r.Map:
+		return merge([]r.Type{a.Key(), a.Elem()}, []r.Type{b.Key(), b.Elem()})
+	case r.Func:
+		if a.IsVariadic() != b.IsVariadic() || a.NumIn() != b.NumIn() || a.NumOut() != b.NumOut() {
+			return 0, 0, false
+		}
+		return merge(rchildren(a), rchildren(b))
+	case r.Struct:
+		if a.NumField() != b.NumField() {
+			return 0, 0, false
+		}
+		for i := 0; i < a.NumField(); i++ {
+			fa, fb := a.Field(i), b.Field(i)
+			if fa.Name != fb.Name || fa.Anonymous != fb.Anonymous || fa.Tag != fb.Tag || fa.PkgPath != fb.PkgPath {
+				return 0, 0, false
+			}
+		}
+		return merge(rchildren(a), rchildren(b))
+	}
+	return 0, 0, false
 }
